@@ -322,6 +322,7 @@ def unsat_biased_body(g, rng, n_named=4, p_named=0.8, nested=True, histories=Tru
         nn[0] += 1
         return "n%d" % nn[0]
     asserted_ids = set()
+    popped_formulas = []
     named_terms = set()
     allow_dups = rng.random() < 0.08
     def mk_assert():
@@ -355,9 +356,33 @@ def unsat_biased_body(g, rng, n_named=4, p_named=0.8, nested=True, histories=Tru
             cmds.append(mk_assert()); total += 1
         elif x < 0.72 and depth < 2:
             cmds.append({"c": "push", "n": 1}); depth += 1; level_names.append([])
+            if rng.random() < 0.25:
+                # a level that is popped before any check-sat has looked at its assertions
+                for _ in range(rng.randint(1, 2)):
+                    cmds.append(mk_assert())
+                if rng.random() < 0.5 and total >= 2:
+                    cmds.insert(len(cmds) - 1, {"c": "check-sat"})
+                    for q in queries:
+                        cmds.insert(len(cmds) - 1, dict(q))
+                popped_formulas.extend(c_["t"] for c_ in cmds[-2:] if c_["c"] == "assert")
+                cmds.append({"c": "pop", "n": 1}); depth -= 1
+                popped_names += level_names.pop()
         elif x < 0.82 and depth > 0:
+            popped_formulas.extend(c_["t"] for c_ in cmds[-4:] if c_["c"] == "assert")
             cmds.append({"c": "pop", "n": 1}); depth -= 1
             popped_names += level_names.pop()
+            if popped_formulas and rng.random() < 0.4:
+                # a differently written formula that the term constructors turn into a popped one
+                f0 = rng.choice(popped_formulas)
+                r0 = tb.rec(f0)
+                if r0["k"] == "a" and r0["op"] in ("and", "or") and len(r0["a"]) >= 2:
+                    a_ = list(r0["a"])
+                    f1 = tb.app(r0["op"], [a_[-1], tb.app(r0["op"], a_[:-1]) if len(a_) > 2 else a_[0]]) if rng.random() < 0.6 else tb.app(r0["op"], a_[::-1])
+                else:
+                    f1 = tb.app("and", [f0, tb.true()]) if rng.random() < 0.5 else tb.app("or", [f0, tb.false()])
+                nm_ = fresh_name() if rng.random() < p_named else ""
+                if nm_: level_names[-1].append(nm_)
+                cmds.append({"c": "assert", "t": f1, "nm": nm_, "inner": []}); total += 1
         elif total >= 2:
             cmds.append({"c": "check-sat"})
             for q in queries:
@@ -1047,6 +1072,15 @@ def b_rounding(job):
             atoms.append(tb.app(rng.choice(["=", "<=", "<"]), [tb.app("+", [tb.app("*", [c(a), v]), tb.app("*", [c(b), w])]), c(rng.randint(-5, 5))]))
         else:
             atoms.append(tb.app(rng.choice(["<", ">"]), [v, w]))
+    if not g.dl and rng.random() < 0.35:
+        # the same dividend divided by n and by -n: (div t (- n)) = (- (div t n)), (mod t (- n)) = (mod t n)
+        v = rng.choice([x, y, z]); n = rng.choice([2, 3, 4, 5])
+        t = rng.choice([v, tb.app("+", [v, c(rng.randint(-2, 2))]), tb.app("-", [v, rng.choice([w_ for w_ in (x, y, z) if w_ != v])])])
+        o1, o2 = rng.choice([("div", "div"), ("div", "mod"), ("mod", "div"), ("div", "div")])
+        d1, d2 = tb.app(o1, [t, c(n)]), tb.app(o2, [t, c(-n)])
+        vals += [d1, d2]
+        atoms.append(tb.app(rng.choice(["=", "<=", ">="]), [d1, rng.choice([c(rng.randint(-3, 3)), rng.choice([x, y, z])])]))
+        atoms.append(tb.app(rng.choice(["=", "<", ">", "distinct"]), [d2, rng.choice([c(rng.randint(-3, 3)), tb.app("-", [d1]) if o1 == o2 == "div" else d1])]))
     if not g.dl:
         # constant folding of div / mod
         for _ in range(3):
